@@ -60,6 +60,31 @@ type provCtx struct {
 	m     *Model
 	busy  map[string]bool
 	loads []*ssa.Call // atomic Load calls on election fields reached by the walk
+	// frames binds the parameters of library functions entered through a call to the
+	// arguments of that call (one level of context sensitivity per entered call)
+	frames []map[*ssa.Parameter]ssa.Value
+}
+
+func (pc *provCtx) bound(p *ssa.Parameter) (ssa.Value, bool) {
+	for i := len(pc.frames) - 1; i >= 0; i-- {
+		if v, ok := pc.frames[i][p]; ok {
+			return v, true
+		}
+	}
+	return nil, false
+}
+
+// enter walks the results of library function f for a call with the given arguments.
+func (pc *provCtx) enter(f *ssa.Function, args []ssa.Value, body func()) {
+	fr := map[*ssa.Parameter]ssa.Value{}
+	for i, p := range f.Params {
+		if i < len(args) {
+			fr[p] = args[i]
+		}
+	}
+	pc.frames = append(pc.frames, fr)
+	body()
+	pc.frames = pc.frames[:len(pc.frames)-1]
 }
 
 // OriginLoads returns the atomic Load instructions (on fields of the election object) that
@@ -219,11 +244,13 @@ func (pc *provCtx) walkExtract(x *ssa.Extract, field string, out originSet, dept
 			}
 			if m.isLib(f) && f.Blocks != nil {
 				// results of a library function: its return values
-				for _, b := range f.Blocks {
-					if ret, ok := b.Instrs[len(b.Instrs)-1].(*ssa.Return); ok && b != f.Recover && x.Index < len(ret.Results) {
-						pc.walk(returnValue(ret, x.Index), field, out, depth+1)
+				pc.enter(f, t.Call.Args, func() {
+					for _, b := range f.Blocks {
+						if ret, ok := b.Instrs[len(b.Instrs)-1].(*ssa.Return); ok && b != f.Recover && x.Index < len(ret.Results) {
+							pc.walk(returnValue(ret, x.Index), field, out, depth+1)
+						}
 					}
-				}
+				})
 				return
 			}
 		}
@@ -256,6 +283,10 @@ func (pc *provCtx) walkExtract(x *ssa.Extract, field string, out originSet, dept
 
 func (pc *provCtx) walkParam(p *ssa.Parameter, field string, out originSet, depth int) {
 	m := pc.m
+	if v, ok := pc.bound(p); ok {
+		pc.walk(v, field, out, depth+1)
+		return
+	}
 	f := p.Parent()
 	idx := -1
 	for i, q := range f.Params {
@@ -498,6 +529,18 @@ func (pc *provCtx) walkCall(c *ssa.Call, field string, out originSet, depth int)
 		pc.loads = append(pc.loads, c)
 		return
 	}
+	// atomic load through a pointer parameter of an entered helper (loadStringOr(&e.token, ...))
+	if sc := c.Call.StaticCallee(); sc != nil && sc.Pkg != nil && sc.Pkg.Pkg.Path() == "sync/atomic" && sc.Name() == "Load" && len(c.Call.Args) > 0 {
+		if p, ok := c.Call.Args[0].(*ssa.Parameter); ok {
+			if v, ok := pc.bound(p); ok {
+				if fld, ok := m.implField(v); ok {
+					out["field:"+fld] = true
+					pc.loads = append(pc.loads, c)
+					return
+				}
+			}
+		}
+	}
 	if m.isLib(f) && f.Blocks != nil && f.Signature.Results().Len() == 1 {
 		nBefore := len(pc.loads)
 		defer func() {
@@ -506,11 +549,13 @@ func (pc *provCtx) walkCall(c *ssa.Call, field string, out originSet, depth int)
 				pc.loads = append(pc.loads[:nBefore], c)
 			}
 		}()
-		for _, b := range f.Blocks {
-			if ret, ok := b.Instrs[len(b.Instrs)-1].(*ssa.Return); ok && b != f.Recover {
-				pc.walk(returnValue(ret, 0), field, out, depth+1)
+		pc.enter(f, c.Call.Args, func() {
+			for _, b := range f.Blocks {
+				if ret, ok := b.Instrs[len(b.Instrs)-1].(*ssa.Return); ok && b != f.Recover {
+					pc.walk(returnValue(ret, 0), field, out, depth+1)
+				}
 			}
-		}
+		})
 		return
 	}
 	out["unknown:"+clip(m.Sym.Of(c).String(), 80)] = true
